@@ -74,8 +74,20 @@ pub fn run(seed: u64, n: usize, out: &str) {
     while sink.len() < n {
         let op = i % OPS.len();
         i += 1;
-        let (al, ah) = rand_interval(&mut r);
-        let (bl, bh) = rand_interval(&mut r);
+        let (mut al, mut ah) = rand_interval(&mut r);
+        let (mut bl, mut bh) = rand_interval(&mut r);
+        if r.chance(0.08) {
+            // underflow band: products/quotients that round to +-0 next to exact zeros
+            let half = (Float::MIN_EXP as i32) / 2 - 10;
+            let t = (2.0 as Float).powi(half - r.below(20) as i32);
+            let z: Float = if r.chance(0.5) { 0.0 } else { -0.0 };
+            let (l, h) = match r.below(4) { 0 => (z, t), 1 => (-t, z), 2 => (-t, t), _ => (t / 2.0, t) };
+            al = l; ah = h;
+            let big = r.chance(0.5);
+            let m = if big { 1.0 / t } else { t };
+            let m = if r.chance(0.5) { -m } else { m };
+            match r.below(3) { 0 => { bl = m; bh = m; } 1 => { if m > 0.0 { bl = m; bh = m * 2.0 } else { bl = m * 2.0; bh = m } } _ => { bl = m; bh = m } }
+        }
         let a = ApproxFloat { low: al, high: ah };
         let b = ApproxFloat { low: bl, high: bh };
         let (rl, rh) = apply(op, a, b);
